@@ -48,8 +48,11 @@ package jerr
 //@       && result.Column == colOf(f.content.data.arr, f.content.data.off, len(f.content.data), i)
 
 // "an index inside that file": the C07 clause is i < len; i == len does not panic (C01) but is not inside the file.
+// gTraced (ghost): the live include stack has been attached to this error (scan-phase errors get it from scanProject)
+//@ ghost field JApiError.gTraced bool
 //@ func NewJApiError(msg, f, i)
 //@   property C07
+//@   ensures !result.gTraced
 //@   requires[C01,C07,@err-file] f != nil
 //@   requires[C07,@err-index-inside] i < len(f.content.data)
 //@   ensures result != nil && fresh(result)
